@@ -31,3 +31,8 @@ for d in sorted(os.listdir('/verif/seeded')):
         subprocess.run(['git', '-C', '/repo', 'checkout', '--', '.'])
     print(d, out[d]['status'], out[d].get('line', ''), flush=True)
 json.dump(out, open(rp, 'w'), indent=1)
+# the evidence files must describe the UNCHANGED tree: re-run the touched checks on the clean tree
+touched = sorted({d.split('-')[0] for d in out if (not want or d.split('-')[0] in want) and d.split('-')[0] in PROPS})
+for pid in touched:
+    subprocess.run(['./check.py', pid, 'quick'], cwd='/verif', stdout=subprocess.DEVNULL)
+subprocess.run(['rm', '-rf', '/verif/replays'])
